@@ -165,7 +165,77 @@ def build_args(d):
         a["circuit"] = qc
     if "L" in d:
         a["L"] = list(d["L"])
+    for code in d.get("edits", []):
+        apply_edit(a, code, n)
     return a
+
+
+def edit_choices(a, n, rnd):
+    """Legal in-place edits a caller may apply to its *own* argument objects between two calls."""
+    out = []
+    i, j = rnd.sample(range(n), 2)
+    if "graph" in a:
+        out += [["g_add", i, j], ["g_rm", i, j], ["g_lc", i, 0], ["g_toggle", i, j]]
+    if "matrices" in a:
+        out += [["m_sign", i, 0], ["m_h", i, 0], ["m_cz", i, j], ["m_gen", i, j], ["m_s", i, 0]]
+    if "stab_circuit" in a:
+        out += [["sc_cz", i, j], ["sc_h", i, 0]]
+    if "strings" in a:
+        out += [["s_sign", i, 0], ["s_swap", i, j]]
+    if "circuit" in a:
+        out += [["c_cz", i, j], ["c_h", i, 0], ["c_x", i, 0]]
+    if "L" in a:
+        out += [["l_swap", i, j]]
+    return out
+
+
+def apply_edit(a, code, n):
+    """Apply one edit (deterministic given its code) to the caller-owned argument objects in `a`."""
+    op, i, j = code
+    if op == "g_add":
+        a["graph"].add_edge(i, j)
+    elif op == "g_rm":
+        a["graph"].remove_edge(i, j)
+    elif op == "g_toggle":
+        a["graph"].toggle_edge(i, j) if hasattr(a["graph"], "toggle_edge") else (
+            a["graph"].remove_edge(i, j) if a["graph"].has_edge(i, j) else a["graph"].add_edge(i, j))
+    elif op == "g_lc":
+        a["graph"].local_complementation(i)
+    elif op.startswith("m_"):
+        R, S, ph = a["matrices"]
+        if op == "m_sign":
+            ph[i] ^= 1
+        elif op == "m_h":                       # H on qubit i (still a valid stabilizer)
+            t = R[i, :].copy()
+            R[i, :] = S[i, :]
+            S[i, :] = t
+        elif op == "m_s":                       # S on qubit i
+            S[i, :] ^= R[i, :]
+        elif op == "m_cz":                      # CZ(i, j): changes the LC class in general
+            S[i, :] ^= R[j, :]
+            S[j, :] ^= R[i, :]
+        elif op == "m_gen":                     # generator i *= generator j (signs: whatever results, still +-1)
+            R[:, i] ^= R[:, j]
+            S[:, i] ^= S[:, j]
+    elif op == "sc_cz":
+        a["stab_circuit"].cz(i, j)
+    elif op == "sc_h":
+        a["stab_circuit"].h(i)
+    elif op == "s_sign":
+        s = a["strings"][i]
+        a["strings"][i] = s[1:] if s.startswith("-") else "-" + s.lstrip("+")
+    elif op == "s_swap":
+        a["strings"][i], a["strings"][j] = a["strings"][j], a["strings"][i]
+    elif op == "c_cz":
+        a["circuit"].cz(i, j)
+    elif op == "c_h":
+        a["circuit"].h(i)
+    elif op == "c_x":
+        a["circuit"].x(i)
+    elif op == "l_swap":
+        a["L"][i], a["L"][j] = a["L"][j], a["L"][i]
+    else:
+        raise ValueError(op)
 
 
 def do_call(d, a):
@@ -399,7 +469,8 @@ def run_session(seed, nevents):
     kept_args = {}                                  # descriptor key -> argument objects reused across calls
     log = []
     viol = []
-    stats = {"calls": 0, "cold": 0, "warm": 0, "mutations": 0, "rerequests": 0, "reused_args": 0, "retained_checks": 0, "entries": {}}
+    stats = {"calls": 0, "cold": 0, "warm": 0, "mutations": 0, "rerequests": 0, "reused_args": 0, "retained_checks": 0, "entries": {},
+             "arg_edits": 0, "calls_after_arg_edit": 0, "edit_ops": {}}
     seen = set()
     for ev in range(nevents):
         r = rnd.random()
@@ -410,17 +481,42 @@ def run_session(seed, nevents):
                 stats["mutations"] += 1
                 log.append({"ev": ev, "mutate": m, "of": d0["entry"]})
             continue
-        d = rnd.choice(pool) if r < 0.9 else random_desc(rnd)
+        edited = None
+        if 0.3 <= r < 0.45 and kept_args:
+            # the caller edits one of its *own* argument objects in place (legal) and calls again with the very same objects:
+            # the answer must be what a pristine process gives for arguments built and edited the same way
+            cand = sorted(kk for kk, aa in kept_args.items() if any(x in aa for x in ("graph", "matrices", "stab_circuit", "strings", "circuit")))
+            heavy = [kk for kk in cand if "graph" in kept_args[kk] or "matrices" in kept_args[kk]]
+            k0 = rnd.choice(heavy if heavy and rnd.random() < 0.6 else (cand or sorted(kept_args)))
+            d0 = json.loads(k0)
+            if len(d0.get("edits", [])) < 5:
+                ch = edit_choices(kept_args[k0], d0["n"], rnd)
+                if ch:
+                    code = rnd.choice(ch)
+                    try:
+                        apply_edit(kept_args[k0], code, d0["n"])
+                        edited = (dict(d0, edits=d0.get("edits", []) + [code]), kept_args.pop(k0))
+                        stats["arg_edits"] += 1
+                        stats["edit_ops"][code[0]] = stats["edit_ops"].get(code[0], 0) + 1
+                        log.append({"ev": ev, "edit_own_argument": code, "of": d0["entry"]})
+                    except Exception:       # noqa: BLE001
+                        kept_args.pop(k0, None)
+        if edited:
+            d = edited[0]
+        else:
+            d = rnd.choice(pool) if r < 0.9 else random_desc(rnd)
         k = json.dumps(d, sort_keys=True)
         if k in seen:
             stats["rerequests"] += 1
         seen.add(k)
         del opened[:]
-        reuse = k in kept_args and rnd.random() < 0.5
+        reuse = bool(edited) or (k in kept_args and rnd.random() < 0.5)
         try:
-            a = kept_args[k] if reuse else build_args(d)
+            a = edited[1] if edited else (kept_args[k] if reuse else build_args(d))
         except Exception:           # noqa: BLE001
             continue
+        if edited:
+            stats["calls_after_arg_edit"] += 1
         if reuse:
             stats["reused_args"] += 1
         before = dig({kk: vv for kk, vv in a.items()})
